@@ -15,6 +15,8 @@ CustomConfigs ==
       [sizes |-> <<3>>, motifs |-> <<Mo(<<1>>, Path3, FALSE)>>, custom |-> TRUE],
       [sizes |-> <<2, 3>>, motifs |-> <<Mo(<<1>>, Edge, TRUE), Mo(<<2>>, Tri, FALSE)>>, custom |-> TRUE],
       \* a two-orbit motif: one hub (orbit column 1, size 1) and two leaves (orbit column 2, size 2)
-      [sizes |-> <<1, 2>>, motifs |-> <<Mo(<<1, 2>>, <<<<1, 2>>, <<1, 3>>>>, FALSE)>>, custom |-> TRUE] }
+      [sizes |-> <<1, 2>>, motifs |-> <<Mo(<<1, 2>>, <<<<1, 2>>, <<1, 3>>>>, FALSE)>>, custom |-> TRUE],
+      \* motif index differs from the index of its first orbit column, and the sizes at the two indexes differ
+      [sizes |-> <<1, 2, 3>>, motifs |-> <<Mo(<<1, 2>>, <<<<1, 2>>, <<1, 3>>>>, FALSE), Mo(<<3>>, Tri, FALSE)>>, custom |-> TRUE] }
 AllConfigs == FastConfigs \cup CustomConfigs
 =============================================================================
